@@ -24,11 +24,14 @@ CONSTANTS
   ReqSeq,     \* sequence of request records [b, n, p, key]; key \in {"na", "right", "wrong"}
   BFamily,    \* family of switch sets explored
   Export,     \* TRUE: print every transition (spec -> code cases)
+  CheckE4,    \* TRUE: also evaluate the design-level E4 comparison on every transition
   Dev_S20_RuleOffRaises,
   Dev_S20b_UnofferedSessionAsserts
 
-VARIABLES B, st, ls    \* enabled switches; [session, level]; sub-function of the last seed reply (0: none)
-vars == <<B, st, ls>>
+VARIABLES B, st, ls,   \* enabled switches; [session, level]; sub-function of the last seed reply (0: none)
+          verdict,     \* observation: contract verdict of the last exchange (StepVerdictE)
+          e4           \* observation: did the last exchange respect "disabling one switch only removes that rule"
+vars == <<B, st, ls, verdict, e4>>
 
 VM == View(M)
 Raise == [k |-> "raise", n |-> 0, b |-> <<>>]
@@ -78,22 +81,21 @@ Specific(s, l, q) ==
     [] OTHER -> {Nothing}
 
 (* respond_without_state_change: first enabled rule that answers.  Returns the
-   set of [pre, rule] (a set only because service handlers are abstracted). *)
-First(b, s, q, rs) ==   \* rs: sequence of <<switch, rule operator result>>; evaluated in order
-  LET RECURSIVE F(_)
-      F(i) == IF i > Len(rs) THEN Nothing
-              ELSE IF rs[i][1] \in b /\ rs[i][2] # Nothing THEN [pre |-> rs[i][2], rule |-> rs[i][1]]
-              ELSE F(i + 1)
-  IN F(1)
-
+   set of [pre, rule] (a set only because service handlers are abstracted).
+   A disabled rule is not evaluated (so it cannot raise either). *)
+Ans(rule, r) == [pre |-> r, rule |-> rule]
+On(b, rule, r) == rule \in b /\ r # Nothing
 Pre(b, s, l, q) ==
-  LET d == First(b, s, q, << <<"sns", D_sns(s, q)>>, <<"msf", D_msf(s, q)>>, <<"sfns", D_sfns(s, q)>>,
-                             <<"fmt", D_fmt(s, q)>>, <<"sc", D_sc(s, q)>>, <<"sr", D_sr(s, q)>>,
-                             <<"tp", D_tp(s, q)>> >>)
-  IN IF d # Nothing THEN {d}
-     ELSE { IF r # Nothing THEN [pre |-> r, rule |-> "specific"]
-            ELSE IF "none" \in b THEN [pre |-> NegR(q, NRC_GeneralReject), rule |-> "none"]
-            ELSE [pre |-> NoReply, rule |-> "silent"] : r \in Specific(s, l, q) }
+  IF On(b, "sns", D_sns(s, q)) THEN {Ans("sns", D_sns(s, q))}
+  ELSE IF On(b, "msf", D_msf(s, q)) THEN {Ans("msf", D_msf(s, q))}
+  ELSE IF On(b, "sfns", D_sfns(s, q)) THEN {Ans("sfns", D_sfns(s, q))}
+  ELSE IF On(b, "fmt", D_fmt(s, q)) THEN {Ans("fmt", D_fmt(s, q))}
+  ELSE IF On(b, "sc", D_sc(s, q)) THEN {Ans("sc", D_sc(s, q))}
+  ELSE IF On(b, "sr", D_sr(s, q)) THEN {Ans("sr", D_sr(s, q))}
+  ELSE IF On(b, "tp", D_tp(s, q)) THEN {Ans("tp", D_tp(s, q))}
+  ELSE { IF r # Nothing THEN Ans("specific", r)
+         ELSE IF "none" \in b THEN Ans("none", NegR(q, NRC_GeneralReject))
+         ELSE Ans("silent", NoReply) : r \in Specific(s, l, q) }
 
 (* update_state (UDSServer, then RandomUDSServer) *)
 IsResp(r, sid) == r.k = "bytes" /\ r.b[1] = sid + 64
@@ -120,12 +122,28 @@ RuleIdx == [sns |-> 0, msf |-> 1, sfns |-> 2, fmt |-> 3, sc |-> 4, sr |-> 5, tp 
 Code(r) == CASE r.k = "none" -> <<0, 0>> [] r.k = "raise" -> <<3, 0>>
              [] IsNeg(r) -> <<1, r.b[3]>> [] OTHER -> <<2, IF r.n >= 2 THEN r.b[2] ELSE -1>>
 
-Init == B \in BFamily /\ st = Locked(DefaultSession) /\ ls = 0
+Q(q) == [b |-> q.b, n |-> q.n, p |-> q.p]
+Strip(o) == [pre |-> o.pre, vis |-> o.vis, st |-> o.st, ls |-> o.ls]
+\* E4 at the design level: for every enabled switch r, the outcomes under B \ {r} never raise and are
+\* those under B unless rule r was the one that fired
+OnlyThatRule(b, s, l, q) ==
+  \A r \in b :
+    LET full == Outcomes(b, s, l, q)
+        less == Outcomes(b \ {r}, s, l, q)
+        fired == \E o \in full : o.rule = r \/ (r = "supp" /\ o.supd)
+    IN /\ \A o \in less : o.pre # Raise
+       /\ ~fired => {Strip(o) : o \in less} = {Strip(o) : o \in full}
+
+Init == B \in BFamily /\ st = Locked(DefaultSession) /\ ls = 0 /\ verdict = "ok" /\ e4 = TRUE
 
 Fire(rule) ==
   \E i \in 1..Len(ReqSeq) : \E o \in Outcomes(B, st, ls, ReqSeq[i]) :
     /\ o.rule = rule
     /\ st' = o.st /\ ls' = o.ls /\ UNCHANGED B
+    /\ verdict' = StepVerdictE(VM, B, st, [q |-> Q(ReqSeq[i]), pre |-> IF o.pre = Raise THEN NoReply ELSE o.pre,
+                                           vis |-> o.vis, raised |-> IF o.pre = Raise THEN "Exception" ELSE "",
+                                           after |-> o.st])
+    /\ e4' = IF CheckE4 THEN OnlyThatRule(B, st, ls, ReqSeq[i]) ELSE TRUE
     /\ Export => PrintT(<<"T", {RuleIdx[r] : r \in B}, st.session, st.level, ls, i,
                           Code(o.pre), Code(o.vis)[1], o.st.session, o.st.level, o.ls>>)
 
@@ -147,34 +165,13 @@ Spec == Init /\ [][Next]_vars
 
 ----------------------------------------------------------------------------
 (* -------------------- properties (C13 E1..E4, C14 A1/A2) ------------------ *)
-Q(q) == [b |-> q.b, n |-> q.n, p |-> q.p]
-Holds(P(_, _)) == \A i \in 1..Len(ReqSeq) : \A o \in Outcomes(B, st, ls, ReqSeq[i]) : P(Q(ReqSeq[i]), o)
-
 TypeOK == B \subseteq Rules /\ st.session \in 0..127 /\ st.level \in -1..126 /\ ls \in 0..127
-NoRaise(q, o) == o.pre # Raise
-E1ok(q, o) == o.pre # Raise =>
-                \E op \in Opts(VM, q) : Matches(Chain(VM, B, st, q, op), B, st, q, o.pre)
-E2ok(q, o) == o.pre # Raise =>
-                \E op \in Opts(VM, q) : /\ Matches(Chain(VM, B, st, q, op), B, st, q, o.pre)
-                                        /\ VisibleOk(B, q, op, o.pre, o.vis)
-E3ok(q, o) == o.pre # Raise => o.st \in NextStates(st, q, o.pre)
-Vok(q, o)  == StepVerdictE(VM, B, st, [q |-> q, pre |-> IF o.pre = Raise THEN NoReply ELSE o.pre, vis |-> o.vis,
-                                         raised |-> IF o.pre = Raise THEN "Exception" ELSE "", after |-> o.st]) = "ok"
-
-E4_NoRaise       == Holds(NoRaise)      \* no switch set makes the server raise (C14 A1 for B = Rules)
-E1_Chain         == Holds(E1ok)
-E2_Suppression   == Holds(E2ok)
-E3_StateUpdate   == Holds(E3ok)
-E_Verdict        == Holds(Vok)          \* the total verdict the trace spec uses agrees
-\* E4: disabling switch r changes nothing unless rule r was the one that fired
-Strip(o) == [pre |-> o.pre, vis |-> o.vis, st |-> o.st, ls |-> o.ls]
-E4_OnlyThatRule ==
-  \A i \in 1..Len(ReqSeq) : \A r \in B :
-    LET full == Outcomes(B, st, ls, ReqSeq[i])
-        less == Outcomes(B \ {r}, st, ls, ReqSeq[i])
-        fired == \E o \in full : o.rule = r \/ (r = "supp" /\ o.supd)
-    IN /\ \A o \in less : o.pre # Raise
-       /\ ~fired => {Strip(o) : o \in less} = {Strip(o) : o \in full}
+E1_Chain        == verdict \notin E1Labels     \* answer class / NRC is the one the ordered chain gives
+E2_Suppression  == verdict \notin E2Labels     \* suppressed iff positive and suppress bit (and rule on)
+E3_StateUpdate  == verdict \notin E3Labels     \* state changes exactly on DSC / SendKey / ECUReset positives
+E4_NoRaise      == verdict \notin E4Labels     \* no switch set makes the server raise
+E_Verdict       == verdict = "ok"              \* the total verdict the trace spec uses
+E4_OnlyThatRule == e4
 \* C14 A2: with the sub-function rule in force the session is always an offered one
 A2_SessionOffered == ("sfns" \in B \/ "sc" \notin B) => Offered
 =============================================================================
